@@ -26,6 +26,9 @@
 (*   SameCarry   at every read the unconsumed tail and the path equal the  *)
 (*               ideal's (C07/C08: carry-over across reads)                *)
 (*   DoneIsError process ends only with the transport's error (C10)        *)
+(*   Progress    (liveness, config MCScpiProcessLive) under weak fairness  *)
+(*               of its own steps process always comes back to a read      *)
+(*               (C05: no loop without consuming input)                    *)
 (* Legacy switch "overflow" restores the pre-repair order of the overflow  *)
 (* test and the compaction (negative control).                             *)
 (* Parameters: IfaceName, Sigma (stream alphabet), N, MaxLen, Legacy       *)
@@ -84,7 +87,10 @@ Scan ==
           IN /\ bad' = (bad \/ ~good)
              /\ lag' = IF good THEN Drop(lag, Len(r.evs)) ELSE lag
              /\ IF r.rem # 0
-                THEN proc' = proc + Len(data) - r.rem /\ rd' = t /\ hdr' = r.path
+                THEN /\ proc' = proc + Len(data) - r.rem /\ hdr' = r.path
+                     \* the search for the next terminator resumes AFTER this one; legacy "spin" (a seeded
+                     \* mutant) resumes at the unfinished unit and finds the same newline again, forever
+                     /\ rd' = IF "spin" \in Legacy THEN proc' ELSE t
                 ELSE proc' = t /\ rd' = t /\ hdr' = <<>>
              /\ res' = out
              /\ pc' = IF out # <<>> THEN "write" ELSE "scan"
@@ -110,6 +116,11 @@ EnvFail == /\ pc \in {"read", "reading", "write", "flush"} /\ ModelFaults /\ (pc
 
 Next == ReadStart \/ ReadByte \/ ReadEnd \/ Scan \/ Write \/ Flush \/ EnvFail
 Spec == Init /\ [][Next]_vars
+
+\* C05, liveness: process never loops without consuming input - from every state it reaches, within
+\* finitely many of its own steps, a point where it asks the transport for more (or has ended)
+FairSpec == Spec /\ WF_vars(Scan \/ Write \/ Flush \/ ReadEnd)
+Progress == []<>(pc \in {"read", "done"} \/ (pc = "reading" /\ rend < N /\ total < MaxLen))
 
 OffsetsOk == /\ 0 <= proc /\ proc <= rd /\ rd <= rend /\ rend <= N
              /\ (pc = "read" => rd < N)
